@@ -13,6 +13,7 @@
 //	CZ <comp>                    compressor chain at the snapshotter level, monitor only
 //	   ops: w <hex> | s | g <seed> <len> <kind>
 //	BG <seed> <len> <segsizes>   real 2 MB block size, multi-megabyte payload, monitor only
+//	VS <seed> <len>              stream validator: payload length x structural chunk cuts, monitor only
 package main
 
 import (
@@ -1157,6 +1158,129 @@ func runBG(id string, pseed uint64, n int, segSizes []int, st *vh.Stats) string 
 	return fmt.Sprintf("%s BG", id)
 }
 
+// ---------------------------------------------------------------- VS (monitor only)
+
+// verdictCuts feeds file image f to the real validator cut at the given absolute offsets
+func verdictCuts(f []byte, cuts []int) string {
+	var sizes []int
+	prev := 0
+	for _, c := range cuts {
+		if c > prev && c < len(f) {
+			sizes = append(sizes, c-prev)
+			prev = c
+		}
+	}
+	sizes = append(sizes, len(f)-prev)
+	return verdict(f, sizes)
+}
+
+// runVS: (payload length) x (chunk cut positions) for the stream validator at the real
+// block size. The file comes from the real SnapshotWriter; cuts are placed at every
+// structural boundary - after the header, after each block, before the tail, inside the
+// tail - alone, in every adjacent pair, all together, and shifted by the deltas
+// {-20,-16,-4,-1,+1,+4,+16,+20}. Every cut of the intact stream must be accepted; the same
+// cuts of a stream with one flipped bit (each region) or cut short at a structural
+// boundary must not be.
+func runVS(id string, pseed uint64, n int, st *vh.Stats) string {
+	r := vh.NewRand(pseed)
+	payload := make([]byte, n)
+	for i := 0; i+8 <= n; i += 8 {
+		binary.LittleEndian.PutUint64(payload[i:], r.U64())
+	}
+	fs := newFS()
+	w, err := c14.NewSnapshotWriter(fp, pb.NoCompression, fs)
+	must(err)
+	_, err = w.Write(payload)
+	must(err)
+	must(w.Close())
+	f := getFile(fs, fp)
+	bs := int(c14.BlockSize())
+	// structural boundaries (absolute offsets)
+	bounds := []int{1024}
+	for o := 1024 + bs + 4; o < len(f)-16; o += bs + 4 {
+		bounds = append(bounds, o)
+	}
+	if len(f)-16 > 1024 {
+		bounds = append(bounds, len(f)-16)
+	}
+	bounds = append(bounds, len(f)-8)
+	var cutsets [][]int
+	cutsets = append(cutsets, nil, bounds) // one chunk; one chunk per structural unit
+	for i, b := range bounds {
+		cutsets = append(cutsets, []int{b})
+		if i+1 < len(bounds) {
+			cutsets = append(cutsets, []int{b, bounds[i+1]})
+		}
+		if i > 0 {
+			cutsets = append(cutsets, []int{1024, b}) // header alone, everything up to b, the rest
+		}
+		for _, d := range []int{-20, -16, -4, -1, 1, 4, 16, 20} {
+			if b+d >= 1024 && b+d < len(f) {
+				cutsets = append(cutsets, []int{b + d}, []int{1024, b + d})
+			}
+		}
+	}
+	// header, then every block as its own chunk, last block + tail together
+	if len(bounds) > 2 {
+		cutsets = append(cutsets, bounds[:len(bounds)-2], bounds[:len(bounds)-1])
+	}
+	seen := map[string]bool{}
+	nAcc := 0
+	for _, cs := range cutsets {
+		k := fmt.Sprint(cs)
+		if seen[k] {
+			continue
+		}
+		seen[k] = true
+		nAcc++
+		if v := verdictCuts(f, cs); v != "A" {
+			st.Violation(id, fmt.Sprintf("validator: writer output refused (%s): payload %d bytes (block size %d), stream of %d bytes cut at %v", v, n, bs, len(f), cs))
+			break
+		}
+	}
+	st.Distribution["vs-accept-cuts"] += nAcc
+	// the other direction: one flipped bit per region / a cut at a structural boundary
+	var bits []int
+	if n > 0 {
+		bits = append(bits, 8*1024+r.Intn(8*min(n, bs)), 8*(len(f)-20)+r.Intn(32)) // first block data, last crc
+		if len(f)-20 > 1024+bs+4 {
+			bits = append(bits, 8*(len(f)-20)-1-r.Intn(8*(len(f)-20-1024-bs-4))) // last block data
+		}
+	}
+	bits = append(bits, 8*(len(f)-16)+r.Intn(24), 8*(len(f)-8)+r.Intn(64)) // tail length, magic
+	pick := func() []int { return cutsets[r.Intn(len(cutsets))] }
+	for _, b := range bits {
+		g := flip(f, b)
+		for _, cs := range [][]int{nil, bounds, pick(), pick()} {
+			if v := verdictCuts(g, cs); v == "A" {
+				st.Violation(id, fmt.Sprintf("validator: stream with bit %d flipped accepted: payload %d bytes, cut at %v", b, n, cs))
+			}
+			st.Distribution["vs-reject-flips"]++
+		}
+	}
+	for _, b := range bounds {
+		for _, d := range []int{0, -1, 1} {
+			if l := b + d; l >= 1024 && l < len(f) {
+				for _, cs := range [][]int{nil, bounds} {
+					if v := verdictCuts(f[:l], cs); v == "A" {
+						st.Violation(id, fmt.Sprintf("validator: stream cut to %d of %d bytes accepted: payload %d bytes, cut at %v", l, len(f), n, cs))
+					}
+					st.Distribution["vs-reject-truncations"]++
+				}
+			}
+		}
+	}
+	st.Count("vs-real-block-size")
+	return fmt.Sprintf("%s VS", id)
+}
+
+func min(a, b int) int {
+	if a < b {
+		return a
+	}
+	return b
+}
+
 // ---------------------------------------------------------------- main
 
 func splitCase(line string) (id string, head []string, ops []string) {
@@ -1209,6 +1333,10 @@ func main() {
 			case "CZ":
 				comp, _ := strconv.Atoi(head[1])
 				obs = runCZ(id, comp, ops, a.Seed, st)
+			case "VS":
+				ps, _ := strconv.ParseUint(head[1], 10, 64)
+				n, _ := strconv.Atoi(head[2])
+				obs = runVS(id, ps, n, st)
 			case "BG":
 				ps, _ := strconv.ParseUint(head[1], 10, 64)
 				n, _ := strconv.Atoi(head[2])
